@@ -3,6 +3,7 @@ package golang
 import (
 	"fmt"
 	"path/filepath"
+	"reflect"
 	"sort"
 	"strings"
 
@@ -371,7 +372,7 @@ func (jenny RawTypes) defaultsForStructRec(context languages.Context, objectRef 
 		} else if field.Type.IsRef() && resolvedFieldType.IsEnum() {
 			memberName := resolvedFieldType.Enum.Values[0].Name
 			for _, member := range resolvedFieldType.Enum.Values {
-				if member.Value == field.Type.Default {
+				if reflect.DeepEqual(member.Value, field.Type.Default) {
 					memberName = member.Name
 					break
 				}
@@ -391,7 +392,7 @@ func (jenny RawTypes) defaultsForStructRec(context languages.Context, objectRef 
 
 			if t.IsEnum() {
 				for _, member := range t.AsEnum().Values {
-					if member.Value == constRef.ReferenceValue {
+					if reflect.DeepEqual(member.Value, constRef.ReferenceValue) {
 						defaultValue = member.Name
 						break
 					}
